@@ -77,6 +77,7 @@ def perms : List Eni → List (List Eni)
 
 def step (op : String) (args : List String) : Option String :=
   match op, args with
+  | "loop", [_] => some "ok"   -- a closed-loop case of the harness (monitors only), replayed by its seed
   | "rel", [pods, rt, rec] => do
     pure (recordStr (release (← pods? pods) (← runtime? rt) (← record? rec)))
   | "asg", [er, pods, pre, "|", post] => do
